@@ -291,6 +291,43 @@ def run(rep: Report, tier: str) -> None:  # noqa: C901
                                     + (f" and the plain attributes {plain}" if plain else "") + f"; it must carry {list(want)} (every viral attribute of either operand, "
                                     f"combined by its propagation rule when both have it) and no plain attribute"))
     rep.floor("R28.8 cases", n8, 30)
+    # ---- R28.11: which viral attributes of a join's operands merge into one propagated column ----
+    rep.rule("R28.11", "merged_viral_attribute_names evaluated for every way a name can occur in 2 and 3 operands (absent / viral / plain attribute) x (join key or not): it merges exactly "
+                       "when at least two operands carry the name, every carrier has it viral, and it is not a join key - an operand WITHOUT the attribute does not prevent the merge")
+    import itertools as _it11
+    from sa import structmodel as _sm11
+    from sa.e6 import Interp as _I11, Raised as _R11, Unmodelled as _U11
+    _M11 = _sm11.Model(P)
+    fm = P.func("vtlengine.Operators.Join.merged_viral_attribute_names")
+    n11 = 0
+    shown11 = 0
+    for nops in (2, 3):
+        for combo in _it11.product(("absent", "viral", "plain"), repeat=nops):
+            for excl in (set(), {"At_1"}):
+                ops = []
+                for k in combo:
+                    comps = {"Id_1": _sm11.MComp("Id_1", _M11.roles["IDENTIFIER"], _M11.number, False), "Me_1": _sm11.MComp("Me_1", _M11.roles["MEASURE"], _M11.number)}
+                    if k != "absent":
+                        comps["At_1"] = _sm11.MComp("At_1", _M11.roles["VIRAL_ATTRIBUTE" if k == "viral" else "ATTRIBUTE"], _M11.number)
+                    ops.append(comps)
+                try:
+                    got = set(_I11(P, max_steps=8000).call(fm, {"components_per_operand": ops, "exclude": set(excl) | {"Id_1"}}))
+                except _R11 as r:
+                    got = {f"<raises {getattr(r.exc, 'kind', '?')}>"}
+                except _U11 as e:
+                    raise AnalysisError(f"R28.11: merged_viral_attribute_names outside the evaluator's language: {e}")
+                carriers = [k for k in combo if k != "absent"]
+                want = {"At_1"} if len(carriers) >= 2 and all(k == "viral" for k in carriers) and "At_1" not in excl else set()
+                n11 += 1
+                if n11 <= 3:
+                    rep.instance("R28.11", f"merge/{'+'.join(combo)}/key={bool(excl)}", nontrivial=True, sample={"operands": list(combo), "join_key": bool(excl), "merged": sorted(got)})
+                if got != want and shown11 < 3:
+                    shown11 += 1
+                    rep.add(Finding("R28.11", f"R28.11/merge/{'+'.join(combo)}/key={bool(excl)}", fm.module.rel, fm.node.lineno, fm.qualname,
+                                    f"a join of {nops} operands in which At_1 is {list(combo)}{' and a join key' if excl else ''}: merged names = {sorted(got)}, expected {sorted(want)}: the attribute is then "
+                                    f"not propagated by its rule but kept as alias-qualified columns (or merged although one carrier has it as a plain attribute)"))
+    rep.instance("R28.11", "merge-cases", nontrivial=True, sample={"cases": n11})
+    rep.floor("R28.11 merge cases", n11, 70)
     rep.assumptions = ["LEAST/GREATEST/+// on non-null numbers behave as min/max/sum/quotient (exact rationals used)", "grammar tokens MIN MAX SUM AVG are the aggregate functions of vp clauses"]
 
 
